@@ -13,6 +13,7 @@ import (
 	"errors"
 	"fmt"
 	"net"
+	"net/url"
 	"reflect"
 	"regexp"
 	"strings"
@@ -709,6 +710,31 @@ func fateOneServer(ctx *hx.Ctx, methods []auth.VerifyMethod, passes []string, ww
 	for _, pass := range passes {
 		r := &fateRun{ctx: ctx, methods: methods, mname: mname, pass: pass, hostport: hostport, h: h, wwwSeen: wwwSeen}
 		r.all()
+	}
+	// the library's own client, credentials in the URL: whatever characters the password holds (the URL carries them
+	// percent-encoded, as net/url prints them), the right credentials are accepted - for every enabled method set
+	for _, pass := range append([]string{"my:pass", "p@ss/w%rd", "sp ace+plus", "\u00e4\u4e2d!$&'()*,;=", "a:b:c@d"}, passes...) {
+		if pass == "" {
+			continue
+		}
+		h.setPass(pass)
+		u := &url.URL{Scheme: "rtsp", Host: hostport, Path: "/stream", User: url.UserPassword(fateUser, pass)}
+		bu, err := base.ParseURL(u.String())
+		ctx.Eval()
+		ctx.Kind("fate:real-client")
+		if err != nil {
+			continue // not a URL the library accepts: nothing to judge
+		}
+		c := &gortsplib.Client{Scheme: bu.Scheme, Host: bu.Host, ReadTimeout: 3 * time.Second, WriteTimeout: 3 * time.Second}
+		if err = c.Start(); err != nil {
+			continue
+		}
+		_, _, err = c.Describe(bu)
+		c.Close()
+		if err != nil {
+			ctx.Failf(-1, "auth-complete-real-client-rejected", fmt.Sprintf("methods=%s pass=%q", mname, pass),
+				"gortsplib.Client with the right credentials in its URL (user %q, password %q, methods %s) was refused: %v", fateUser, pass, mname, err)
+		}
 	}
 
 	stop()
